@@ -82,8 +82,10 @@ func (c *vChild) AllocateTimer(name string, tags map[string]string) tally.Cached
 func (c *vChild) AllocateHistogram(name string, tags map[string]string, b tally.Buckets) tally.CachedHistogram {
 	return c.alloc("alloc-histogram", name, tags, b)
 }
-func (h vHandle) ReportCount(v int64)   { h.c.add(vEntry{op: "count", handle: h.h, i: v}) }
-func (h vHandle) ReportGauge(v float64) { h.c.add(vEntry{op: "gaugev", handle: h.h, f: math.Float64bits(v)}) }
+func (h vHandle) ReportCount(v int64) { h.c.add(vEntry{op: "count", handle: h.h, i: v}) }
+func (h vHandle) ReportGauge(v float64) {
+	h.c.add(vEntry{op: "gaugev", handle: h.h, f: math.Float64bits(v)})
+}
 func (h vHandle) ReportTimer(d time.Duration) {
 	h.c.add(vEntry{op: "timerv", handle: h.h, i: int64(d)})
 }
@@ -253,7 +255,7 @@ func c19Cached(maxChildren int) {
 	verifrt.Reach("c19.cached.end")
 }
 
-func VerifC19Plain()      { c19Plain(3, 2) }
-func VerifC19Cached()     { c19Cached(3) }
-func VerifC19Plain5()     { c19Plain(5, 3) }
-func VerifC19Cached5()    { c19Cached(5) }
+func VerifC19Plain()   { c19Plain(3, 2) }
+func VerifC19Cached()  { c19Cached(3) }
+func VerifC19Plain5()  { c19Plain(5, 3) }
+func VerifC19Cached5() { c19Cached(5) }
